@@ -703,7 +703,15 @@ Section Resolve.
                 end
             | None => []
             end in
-        let errs := (b_errs b ++ tuple_errs ++ v1 ++ v2)%list in
+        (* FromField / FromVariant / FromTypeParam have no delegating newtype form *)
+        let v3 :=
+          match t, style, b_fields b with
+          | (DFromField | DFromVariant | DFromTypeParam), StTuple, [_] =>
+              [with_span (rd_ident_span d)
+                 (new_err (KUnsupportedShape "one unnamed field" (Some "named fields or no fields")))]
+          | _, _, _ => []
+          end in
+        let errs := (b_errs b ++ tuple_errs ++ v1 ++ v2 ++ v3)%list in
         (Some (SStruct style (b_fields b) (map fst (b_magic b))), errs)
     | REnum rvs =>
         if is_outer t then
